@@ -204,6 +204,17 @@ func resolveRoles(w *World) *Roles {
 			}
 		}
 	}
+	// … and, among several such predicates, the one the counting function asks
+	if ro.Count != nil {
+		allInstrs(ro.Count, func(in ssa.Instruction) {
+			if c, ok := in.(*ssa.Call); ok {
+				if f := c.Call.StaticCallee(); f != nil && f.Signature.Recv() != nil && namedOf(f.Signature.Recv().Type()) != nil && namedOf(f.Signature.Recv().Type()).Obj() == jobT.Obj() &&
+					f.Signature.Params().Len() == 0 && f.Signature.Results().Len() == 1 && f.Signature.Results().At(0).Type().String() == "bool" {
+					ro.RunPred = f
+				}
+			}
+		})
+	}
 	if ro.RunPred == nil {
 		ro.fail("per-job running predicate not found")
 	}
